@@ -18,7 +18,13 @@ class Sym:
     def __bool__(self):  # never silently coerce
         raise OutOfSubset(f"implicit bool() of symbolic value {self!r} inside the engine")
 
-    __hash__ = None
+    # identity hash: lets symbolic keys live in native dicts; every lookup that involves a symbolic key goes
+    # through ops.eq forks (see builtins_._dict_lookup), never through native hashing equality
+    def __hash__(self):
+        return id(self)
+
+    def __eq__(self, other):
+        return self is other
 
 
 class SInt(Sym):
@@ -38,6 +44,7 @@ class SReal(Sym):
 
 
 _SORTS = {}
+_OBJ_COUNTER = [0]
 
 
 def ref_sort(name: str):
@@ -94,6 +101,7 @@ class VClass:
         self.attrs = attrs or {}  # class attributes (evaluated lazily): name -> ast expr
         self.attr_cache = {}
         self.is_enum = is_enum
+        self.is_exception = is_exception
         self.is_dataclass = is_dataclass
         self.node = node
         self.builtin = builtin
@@ -220,6 +228,12 @@ def z3_of(v):
         return v.z
     if isinstance(v, Opaque):
         return v.z
+    if isinstance(v, VObj):
+        # identity of a heap object as a term (lets uninterpreted functions take objects as arguments)
+        if getattr(v, "_z", None) is None:
+            _OBJ_COUNTER[0] += 1
+            v._z = z3.Const(f"obj!{v.cls.name}!{_OBJ_COUNTER[0]}", ref_sort("ObjRef"))
+        return v._z
     if isinstance(v, bool):
         return z3.BoolVal(v)
     if isinstance(v, int):
